@@ -98,12 +98,16 @@ Inductive op :=
 | Inc (v : Z) | Count | Tick (d : Z) | Reset
 | IncA (v : Z) | IncB (v : Z) | Ratio | RReset
 | Append (v : Z)        (* other := NewCounter(same buckets, same resolution); other.Inc(v); c.Append(other) *)
-| AppendClone.          (* c.Append(c.Clone()) *)
+| AppendClone           (* c.Append(c.Clone()) *)
+| TakeClone             (* snap = c.Clone(): the snapshot is kept *)
+| SnapCount             (* snap.Count() *)
+| SnapInc (v : Z).      (* snap.Inc(v) *)
 
-Record st := { now : Z; c0 : counter; ca : counter; cb : counter }.
+Record st := { now : Z; c0 : counter; ca : counter; cb : counter;
+               cs : counter (* a snapshot taken with Clone() and kept: it lives on independently of c0 *) }.
 
 Definition init (n start : Z) : st :=
-  {| now := start; c0 := new_counter n; ca := new_counter n; cb := new_counter n |}.
+  {| now := start; c0 := new_counter n; ca := new_counter n; cb := new_counter n; cs := new_counter n |}.
 
 (* the amount the two Append operations add to the counter in state s *)
 Definition appended (r : Z) (s : st) (o : op) : Z :=
@@ -115,24 +119,30 @@ Definition appended (r : Z) (s : st) (o : op) : Z :=
 
 (* observables: Count -> [Count(); CountedBuckets()]
                 Ratio -> [numerator a; denominator a+b; IsReady()]   (Ratio() = numerator/denominator, 0 if denominator = 0)
+                SnapCount -> [snap.Count(); snap.CountedBuckets()]
                 every other op -> [] *)
 Definition step (r : Z) (s : st) (o : op) : st * list Z :=
   match o with
-  | Inc v => ({| now := now s; c0 := inc r (now s) v (c0 s); ca := ca s; cb := cb s |}, [])
+  | Inc v => ({| now := now s; c0 := inc r (now s) v (c0 s); ca := ca s; cb := cb s; cs := cs s |}, [])
   | Count => let '(c', n) := count r (now s) (c0 s) in
-             ({| now := now s; c0 := c'; ca := ca s; cb := cb s |}, [n; countedBuckets c'])
-  | Tick d => ({| now := now s + d; c0 := c0 s; ca := ca s; cb := cb s |}, [])
-  | Reset => ({| now := now s; c0 := reset (c0 s); ca := ca s; cb := cb s |}, [])
-  | IncA v => ({| now := now s; c0 := c0 s; ca := inc r (now s) v (ca s); cb := cb s |}, [])
-  | IncB v => ({| now := now s; c0 := c0 s; ca := ca s; cb := inc r (now s) v (cb s) |}, [])
+             ({| now := now s; c0 := c'; ca := ca s; cb := cb s; cs := cs s |}, [n; countedBuckets c'])
+  | Tick d => ({| now := now s + d; c0 := c0 s; ca := ca s; cb := cb s; cs := cs s |}, [])
+  | Reset => ({| now := now s; c0 := reset (c0 s); ca := ca s; cb := cb s; cs := cs s |}, [])
+  | IncA v => ({| now := now s; c0 := c0 s; ca := inc r (now s) v (ca s); cb := cb s; cs := cs s |}, [])
+  | IncB v => ({| now := now s; c0 := c0 s; ca := ca s; cb := inc r (now s) v (cb s); cs := cs s |}, [])
   | Ratio => let '(a', a) := count r (now s) (ca s) in
              let '(b', b) := count r (now s) (cb s) in
-             ({| now := now s; c0 := c0 s; ca := a'; cb := b' |}, [a; a + b; zbool (is_ready a' b')])
-  | RReset => ({| now := now s; c0 := c0 s; ca := reset (ca s); cb := reset (cb s) |}, [])
+             ({| now := now s; c0 := c0 s; ca := a'; cb := b'; cs := cs s |}, [a; a + b; zbool (is_ready a' b')])
+  | RReset => ({| now := now s; c0 := c0 s; ca := reset (ca s); cb := reset (cb s); cs := cs s |}, [])
   | Append v => ({| now := now s; c0 := append r (now s) (c0 s) (inc r (now s) v (new_counter (len (c0 s))));
-                    ca := ca s; cb := cb s |}, [])
+                    ca := ca s; cb := cb s; cs := cs s |}, [])
   | AppendClone => let '(c', o) := clone r (now s) (c0 s) in
-                   ({| now := now s; c0 := append r (now s) c' o; ca := ca s; cb := cb s |}, [])
+                   ({| now := now s; c0 := append r (now s) c' o; ca := ca s; cb := cb s; cs := cs s |}, [])
+  | TakeClone => let '(c', o) := clone r (now s) (c0 s) in
+                 ({| now := now s; c0 := c'; ca := ca s; cb := cb s; cs := o |}, [])
+  | SnapCount => let '(c', n) := count r (now s) (cs s) in
+                 ({| now := now s; c0 := c0 s; ca := ca s; cb := cb s; cs := c' |}, [n; countedBuckets c'])
+  | SnapInc v => ({| now := now s; c0 := c0 s; ca := ca s; cb := cb s; cs := inc r (now s) v (cs s) |}, [])
   end.
 
 (* the value Ratio() returns in state s, as a rational *)
@@ -152,6 +162,9 @@ Definition decode_op (l : list Z) : op :=
   | [7] => RReset
   | [8; v] => Append v
   | [9] => AppendClone
+  | [10] => TakeClone
+  | [11] => SnapCount
+  | [12; v] => SnapInc v
   | _ => Tick 0
   end.
 
